@@ -37,6 +37,14 @@ def zsort(kind):
     return {"int": I, "real": R, "bool": B, "float": FL}[kind]
 
 
+STR = z3.DeclareSort("PyStr")
+STRLEN = z3.Function("strlen", STR, I)
+
+
+def is_str(v):
+    return is_z3(v) and v.sort() == STR
+
+
 CARD = z3.Function("card", z3.ArraySort(I, B), I)     # cardinality of a finite set (len of a Python set): trusted
 
 
@@ -437,6 +445,10 @@ class Engine:
         return self.arith(node.op, a, b, st, node.lineno, guard)
 
     def cmp(self, op, a, b):
+        if is_str(a) or is_str(b):
+            if isinstance(op, (ast.Eq, ast.NotEq)):
+                return fresh("streq", B)        # content of strings is not modelled
+            raise Unsupported("ordering of strings")
         if is_fl(a) or is_fl(b) or (isinstance(a, PyObj) and a.kind == "float") or (isinstance(b, PyObj) and b.kind == "float"):
             fa, fb = lift_fl(a), lift_fl(b)
             both = z3.And(FL.is_fin(fa), FL.is_fin(fb))
@@ -610,6 +622,20 @@ class Engine:
             if isinstance(idx, int):
                 return base[idx]
             raise Unsupported("symbolic index into tuple")
+        if is_str(base):
+            if isinstance(sl, ast.Slice):
+                for part in (sl.lower, sl.upper):
+                    if part is not None:
+                        self.ev(part, st, guard)
+                from pyvc import externals
+                externals.USED.add("string slicing never raises (result opaque)")
+                return fresh("slice", STR)
+            raise Unsupported("string indexing (may raise IndexError)")
+        if isinstance(base, PyObj) and base.kind == "strlist":
+            idx = self.ev(sl, st, guard)
+            if idx == -1:      # split(...)[-1]: split never returns an empty list
+                return fresh("piece", STR)
+            raise Unsupported("indexing a list of strings")
         if not isinstance(base, Ref):
             raise Unsupported("subscript of non-array at line %s" % node.lineno)
         if st.heap[base.base].kind == "dict":
@@ -641,7 +667,7 @@ class Engine:
         if isinstance(v, Ref) and node.attr == "shape":
             n = self.ref_ndim(st, v)
             return tuple(self.ref_len(st, v, d) for d in range(n))
-        if isinstance(v, Ref):
+        if isinstance(v, Ref) or is_str(v) or (isinstance(v, PyObj) and v.kind in ("opaqueset", "opaquelist")):
             return PyObj("method", (v, node.attr))
         if isinstance(v, PyObj) and v.kind == "func" and self.imports.get(v.val, v.val) in ("numpy", "math", "random"):
             return PyObj("func", self.imports.get(v.val, v.val) + "." + node.attr)
@@ -727,6 +753,12 @@ class Engine:
                 return self.call_contract(callee, node, st, guard)
             canon = self.imports.get(name, name)
             return externals.call(self, st, canon, node, guard)
+        if isinstance(fv, PyObj) and fv.kind == "object":
+            for a in node.args:
+                self.ev(a, st, guard)
+            from pyvc import externals
+            externals.USED.add("call of a callable parameter: opaque result")
+            return PyObj("opaque", None)
         raise Unsupported("call at line %s" % node.lineno)
 
     def quant(self, which, node, st, guard):
@@ -1175,6 +1207,9 @@ class Engine:
                 n_ = fresh("%s.len@%s" % (v.base, tag), I)
                 st.pc.append(n_ >= 0)
                 shape = (n_,) + tuple(ho.shape[1:])
+                if ho.elem is None:         # a list whose items are not modelled: only its length exists
+                    st.heap[v.base] = ho.replace(shape=shape)
+                    continue
             st.heap[v.base] = ho.replace(arr=fresh("%s@%s" % (v.base, tag), arr_sort(ho.elem, ho.ndim)), shape=shape)
 
     def loop_spec(self, node):
@@ -1332,11 +1367,31 @@ class Engine:
                 return self.for_pairs(s, st, seq)
         if isinstance(s.target, ast.Name) and not self.concrete:
             seq = self.ev(it, st)
+            if isinstance(seq, PyObj) and seq.kind == "strlist":
+                return self.for_opaque(s, st)
             if isinstance(seq, Ref) and self.is_set(st, seq):
                 return self.for_set(s, st, seq)
             if isinstance(seq, Ref) and st.heap[seq.base].kind in ("setlist", "list") and not seq.prefix:
                 return self.for_list(s, st, seq)
         raise Unsupported("for over %s at line %s" % (ast.dump(it)[:40], s.lineno))
+
+    def for_opaque(self, s, st):
+        """iteration over a finite list whose content is not modelled: the body is checked for one arbitrary item
+        (safety, raises) from an arbitrary state of the variables it modifies; such a loop always terminates"""
+        names, bases = self.modified_in(s.body, st)
+        head = st.fork()
+        self.havoc(head, {n_ for n_ in names if n_ in head.env and is_z3(head.env[n_]) or isinstance(head.env.get(n_), (int, bool))},
+                   bases, "LO%d" % self.loop_ord[id(s)])
+        out = []
+        it = head.fork()
+        it.env[s.target.id] = fresh(s.target.id, STR)
+        for kind, s2, val in self.run_block(s.body, it):
+            if kind in ("return", "raise"):
+                out.append((kind, s2, val))
+        ex = head.fork()
+        ex.env[s.target.id] = PyObj("undefined")
+        out.append(("normal", ex, None))
+        return out
 
     def for_pairs(self, s, st, seq):
         """for a, b in combinations(S, 2): every unordered pair of distinct members exactly once, in some orientation
@@ -1535,6 +1590,9 @@ class Engine:
             if ty.kind == "obj":
                 st.env[p] = PyObj("object", p)
                 continue
+            if ty.kind == "str":
+                st.env[p] = z3.Const("in_" + p, STR)
+                continue
             if p in (c.fixed or {}):
                 st.env[p] = c.fixed[p]
                 continue
@@ -1586,6 +1644,8 @@ class Engine:
             if kind == "raise":
                 exc = val.val
                 allowed = c.raises or {}
+                if exc in (getattr(c, "may_raise", None) or []):
+                    continue
                 if exc in allowed:
                     s3 = s2.fork()
                     s3.old = entry
